@@ -35,9 +35,10 @@ def node_text(e):
 def unparse(chain):
     s = ''
     for e in chain:
-        s += _sym(e['bond']) + node_text(e)
+        s += _sym(e['bond']) + node_text(e) + e.get('pre_desc', '')
         for (o, m, pct) in e['rings']:
             s += _sym(o) + (str(m) if (m < 10 and not pct) else '%%%02d' % m)
+        s += e.get('post_desc', '')
         if e['mult'] > 1 or e.get('force_mult'):
             s += '|%d' % e['mult']
         for b in e['branches']:
